@@ -400,6 +400,7 @@ func c06Child(c *mon.Child) {
 		c06StructOfTargets(c)
 		c06ActionErrors(c)
 		c06EmptyMatches(c)
+		c06Heredocs(c)
 	}
 	// Part A: generated grammars x arbitrary bytes / soup / near-derivations
 	nInputs := c.N(60, 300)
